@@ -166,3 +166,24 @@ func init() {
 		return old
 	}
 }
+
+func init() {
+	// pkg/mem shells out (os/exec) to ask the OS for memory sizes: nondeterministic
+	// stubs returning any size >= 1 MiB (documented contract: some plausible amount).
+	memStub := func(name string) externalFn {
+		return func(fr *frame, a []value) value {
+			v := fr.i.nondet(name, types.Uint64)
+			if sv, ok := v.(sym); ok {
+				s := fr.i.s
+				s.model[sv.t.id] = 1 << 33
+				s.assert(s.mk("bvuge", 0, sv.t, s.constT(64, 1<<20)))
+				s.assert(s.mk("bvule", 0, sv.t, s.constT(64, 1<<46)))
+			} else if v.(uint64) < 1<<20 {
+				v = uint64(1 << 33)
+			}
+			return tuple{v, iface{}}
+		}
+	}
+	externals["github.com/wrgl/wrgl/pkg/mem.GetTotalMem"] = memStub("mem.total")
+	externals["github.com/wrgl/wrgl/pkg/mem.GetAvailMem"] = memStub("mem.avail")
+}
